@@ -1,7 +1,7 @@
 (* C11 - theorems about _clean_up_state with the constants of the CURRENT source
    (cfg_now / cleanup_now are defined in V2/CleanupRun.v so that the model runs even if a proof breaks). *)
 From Coq Require Import ZArith List String Bool Lia.
-From NG Require Import Gen.C11Consts V2.Cleanup V2.Cleanup_proofs V2.CleanupRun.
+From NG Require Import Gen.C11Consts V2.Cleanup V2.Cleanup_proofs V2.Cleanup_clock V2.CleanupRun.
 Import ListNotations.
 Open Scope string_scope.
 Open Scope Z_scope.
@@ -27,6 +27,64 @@ Lemma candidates_now now s s' (ix : index) :
                                            frame_rel (fun x => slook (flows s') x = None) i i')
             (candidates ix s name) (candidates ix s' name).
 Proof. intros Hd Hr. exact (cleanup_candidates cfg_now now s s' Hd Hr ix eq_refl). Qed.
+
+(* the reference closure (with the per-flow listing) is an invariant of the clean-up; on such
+   states the clean-up never raises *)
+Definition refs_ok (s : state) : Prop :=
+  NoDup (map fst (flows s)) /\ closed_refs s /\ listed_by_flow s.
+
+Lemma refs_okb_ok s : refs_okb s = true -> refs_ok s.
+Proof. exact (refs_okb_sound s). Qed.
+
+Example ex_state_refs_ok : refs_ok ex_state.
+Proof. apply refs_okb_ok. vm_compute. reflexivity. Qed.
+
+Lemma refs_ok_preserved now s s' : refs_ok s -> cleanup_now now s = Some s' -> refs_ok s'.
+Proof.
+  intros (Hn & Hc & Hl) Hr. split; [exact (cleanup_keys _ _ _ _ Hn Hr)|]. split.
+  - exact (cleanup_preserves_closed cfg_now now s s' Hn Hr eq_refl eq_refl Hc).
+  - exact (cleanup_preserves_listed _ _ _ _ Hn Hr Hl).
+Qed.
+
+Lemma total_now now s : refs_ok s -> exists s', cleanup_now now s = Some s'.
+Proof. intros (Hn & Hc & Hl). exact (cleanup_total cfg_now now s Hn Hc Hl). Qed.
+
+Lemma lookups_now now s s' :
+  refs_ok s -> cleanup_now now s = Some s' ->
+  forall u i i', slook (flows s) u = Some i -> slook (flows s') u = Some i' ->
+    (forall x, In x (i_children i') ->
+       exists ix ix', slook (flows s) x = Some ix /\ slook (flows s') x = Some ix' /\
+                      frame_rel (fun y => slook (flows s') y = None) ix ix') /\
+    (forall x, In x (i_children i) -> ~ In x (i_children i') ->
+       exists ix, slook (flows s) x = Some ix /\ removable cfg_now now ix = true /\ slook (flows s') x = None) /\
+    (forall k l' x, slook (i_scopes i') k = Some l' -> In x l' ->
+       exists ix ix', slook (flows s) x = Some ix /\ slook (flows s') x = Some ix' /\
+                      frame_rel (fun y => slook (flows s') y = None) ix ix') /\
+    (forall a, In a (i_actions i') -> exists act, slook (actions s) a = Some act /\ slook (actions s') a = Some act).
+Proof. intros (Hn & Hc & _) Hr. exact (cleanup_lookups cfg_now now s s' Hn Hr eq_refl eq_refl Hc). Qed.
+
+Lemma later_clock_now t1 t2 s s1 s12 s2 :
+  t1 <= t2 -> refs_ok s ->
+  cleanup_now t1 s = Some s1 -> cleanup_now t2 s1 = Some s12 -> cleanup_now t2 s = Some s2 ->
+  (forall u, slook (flows s12) u = None <-> slook (flows s2) u = None) /\
+  (forall u i12 i2, slook (flows s12) u = Some i12 -> slook (flows s2) u = Some i2 ->
+     (i_flow i12 = i_flow i2 /\ i_status i12 = i_status i2 /\ i_updated i12 = i_updated i2 /\
+      i_activated i12 = i_activated i2 /\ i_parent i12 = i_parent i2 /\ i_actions i12 = i_actions i2 /\
+      i_rest i12 = i_rest i2 /\ i_heads i12 = i_heads i2 /\ map fst (i_scopes i12) = map fst (i_scopes i2)) /\
+     (forall x, In x (i_children i12) <-> In x (i_children i2)) /\
+     (forall k l12 l2, slook (i_scopes i12) k = Some l12 -> slook (i_scopes i2) k = Some l2 ->
+                       forall x, In x l12 <-> In x l2)) /\
+  (forall a, slook (actions s12) a = slook (actions s2) a) /\
+  s_rest s12 = s_rest s2.
+Proof.
+  intros Ht (Hn & Hc & _) R1 R12 R2. unfold cleanup_now in *. split; [|split; [|split]].
+  - intro u. exact (later_same_domain cfg_now t1 t2 s s1 s12 s2 eq_refl Ht Hn R1 R12 R2 u).
+  - intros u i12 i2 H1 H2. split.
+    + exact (later_same_instance cfg_now t1 t2 s s1 s12 s2 Hn R1 R12 R2 u i12 i2 H1 H2).
+    + exact (later_same_lists cfg_now t1 t2 s s1 s12 s2 eq_refl Ht Hn R1 R12 R2 u i12 i2 eq_refl eq_refl Hc H1 H2).
+  - intro a. exact (later_same_actions cfg_now t1 t2 s s1 s12 s2 eq_refl Ht Hn R1 R12 R2 a).
+  - exact (later_same_rest cfg_now t1 t2 s s1 s12 s2 Hn R1 R12 R2).
+Qed.
 
 (* the hypotheses are inhabited: the example of Cleanup.v under the constants of the source *)
 Example cleanup_now_example :
